@@ -365,4 +365,65 @@ theorem defaults_in_grid :
   decide +kernel
 
 
+/-! ## parameter forwarding between the entry points (regenerated call graph: `Gen.C17.signatures`, `calls`, `consumes`) -/
+
+open ChythonModel.Gen.C17 in
+/-- parameter `p` of method `m` arrives — under its own name, unmodified — at method `t`, which reads it:
+    either `m` is `t` and `t` consumes `p`, or `m` passes its own `p` (bare, never re-bound) on as the parameter `q` of a
+    callee from which `q` arrives at `t`. `fuel` bounds the call depth. -/
+def arrives : Nat → String → String → String → Bool
+  | 0, _, _, _ => false
+  | f + 1, m, p, t =>
+    (m == t && consumes.any (fun c => c.1 == t && c.2.contains p)) ||
+    calls.any fun c => c.1 == m && c.2.2.any fun b => b.2 == p && arrives f c.2.1 b.1 t
+
+/-- the layer that the documentation makes responsible for each parameter -/
+def consumerLayers : List (String × List String) :=
+  [("min_radius", ["_chains", "_morgan_hash_dict"]), ("max_radius", ["_chains", "_morgan_hash_dict"]),
+   ("number_bit_pairs", ["linear_hash_set", "linear_hash_smiles"]),
+   ("length", ["linear_bit_set", "morgan_bit_set"]), ("number_active_bits", ["linear_bit_set", "morgan_bit_set"])]
+
+open ChythonModel.Gen.C17 in
+/-- the table is closed: caller and callee of every recorded call have a signature, every bound name is a parameter of the
+    callee, no parameter is bound twice -/
+theorem call_graph_resolved :
+    ∀ c ∈ calls, (signatures.any fun s => s.1 == c.1) = true ∧
+      ∃ ps ∈ signatures.lookup c.2.1, (∀ b ∈ c.2.2, b.1 ∈ ps) ∧ (c.2.2.map (·.1)).Nodup := by decide +kernel
+
+open ChythonModel.Gen.C17 in
+/-- **forwarding_name_preserving** — every argument of every call between fingerprint methods (written positionally or by
+    keyword) is the caller's own parameter *of the same name*, passed as a bare name and never re-bound in the caller:
+    no swapped radii, no constant, no modified value -/
+theorem forwarding_name_preserving : ∀ c ∈ calls, ∀ b ∈ c.2.2, b.2 = b.1 := by decide +kernel
+
+open ChythonModel.Gen.C17 in
+/-- **forwarding_complete** — whenever caller and callee share a parameter name the caller passes it on explicitly:
+    no callee default is silently used in place of a value the user gave to the outer entry point -/
+theorem forwarding_complete :
+    ∀ c ∈ calls, ∀ ps ∈ signatures.lookup c.1, ∀ qs ∈ signatures.lookup c.2.1, ∀ q ∈ qs, q ∈ ps → c.2.2.lookup q = some q := by
+  decide +kernel
+
+open ChythonModel.Gen.C17 in
+/-- **parameters_reach_consumer** — every parameter of every fingerprint method reaches, name-preserved and unmodified, a
+    layer that is responsible for it (`consumerLayers`) and that layer reads it -/
+theorem parameters_reach_consumer :
+    ∀ s ∈ signatures, ∀ p ∈ s.2, ∃ ts ∈ consumerLayers.lookup p, ts.any (fun t => arrives 6 s.1 p t) = true := by
+  decide +kernel
+
+open ChythonModel.Gen.C17 in
+/-- **call_chain_as_modelled** — the calls among the modelled methods are exactly the compositions of the Lean model
+    (`linearBitSet` → `linearHashSet` → `fragments` → `chains`; `morganBitSet` → `morganHashSet` → `morganHashDict`; the
+    two fingerprint arrays are built from the bit sets) — nothing else is called, nothing is skipped -/
+theorem call_chain_as_modelled :
+    (calls.map fun c => (c.1, c.2.1)).filter (fun e =>
+        !["linear_hash_smiles", "linear_smiles_hash", "morgan_hash_smiles", "morgan_smiles_hash"].contains e.1) =
+      [("linear_fingerprint", "linear_bit_set"), ("linear_bit_set", "linear_hash_set"), ("linear_hash_set", "_fragments"),
+       ("_fragments", "_chains"), ("morgan_fingerprint", "morgan_bit_set"), ("morgan_bit_set", "morgan_hash_set"),
+       ("morgan_hash_set", "_morgan_hash_dict")] := by decide +kernel
+
+open ChythonModel.Gen.C17 in
+example : arrives 6 "linear_fingerprint" "number_bit_pairs" "linear_hash_set" = true ∧
+    arrives 6 "linear_fingerprint" "number_bit_pairs" "_chains" = false := by decide +kernel
+
+
 end ChythonModel.Props.C17
